@@ -21,6 +21,9 @@ from .ndarr import Arr, Unk, Choice, InterpRaise, InterpTypeError, InterpValueEr
 
 
 def _kjoin(a, b):
+    # 'z' = complex with a definitely non-zero imaginary part; any arithmetic degrades it to 'c'
+    a = 'c' if a == 'z' else a
+    b = 'c' if b == 'z' else b
     order = 'bifc'
     return a if order.index(a) >= order.index(b) else b
 
@@ -50,7 +53,7 @@ def tags_of(v):
 
 def scalar_kind(v):
     if isinstance(v, DV):
-        return v.kind
+        return 'c' if v.kind == 'z' else v.kind
     if isinstance(v, bool):
         return 'b'
     if isinstance(v, int):
@@ -207,7 +210,7 @@ class DV(object):
         return DV(self.tags, 'f', 'nonneg')
 
     def real_(self):
-        if self.kind != 'c':
+        if self.kind not in ('c', 'z'):
             return self
         return DV(self.tags, 'f', 'any')
 
@@ -226,7 +229,7 @@ class DV(object):
         return self.imag_()
 
     def kind_(self):
-        return self.kind
+        return 'c' if self.kind == 'z' else self.kind
 
     def cmp_(self, op, other):
         return Unk(('cmp', op, self, other))
@@ -244,6 +247,8 @@ class DV(object):
         return Unk(('fn', 'isfinite', self))
 
     def iscomplex_(self):
+        if self.kind == 'z':
+            return True
         if self.kind != 'c':
             return False
         return Unk(('fn', 'iscomplex', self))
